@@ -9,6 +9,7 @@ CONSTANTS
   KF_StaleFlags = TRUE
   KF_NoReloadMutex = FALSE
   DumpFile = ""
+  KF_PortFreedAfterDone = FALSE
   KF_MidEstablishLeak = FALSE
 INVARIANTS
   AcceptOnlyBackendChanges
